@@ -11,7 +11,7 @@ RULE = ("the crash matrix, enumerated: panic origin {user code before the drop (
         "value, real (unmocked) function, default body, and each mock-induced error kind: no implementation, no matching pattern, wrong order, "
         "out of range, inputs not matched, single-use value twice, explicit panics(), missing real function, missing default body} x topology "
         "{original only; clone alive on the same thread; the panicking scope owns a clone; original with delegation helper; original holding a "
-        "lent clone; scope left on a foreign thread} x {expectations met, unmet}; the instance is owned by the scope that panics (callown / "
+        "lent clone; scope left on a foreign thread; mock constructed by cleanup code while its thread unwinds} x {expectations met, unmet}; the instance is owned by the scope that panics (callown / "
         "drop-while-unwinding / verify()-from-a-scope-guard-while-unwinding events), a second panic aborts the harness process and is observed as a crash; followed by further calls and "
         "verification of the survivors (the mock stays usable). distinct = canonical JSON; non-trivial = an instance is dropped while unwinding")
 
@@ -42,7 +42,8 @@ def configs():
     return C
 
 
-TOPOLOGIES = ["orig", "clone_alive", "scope_owns_clone", "helper", "lent", "foreign_thread", "foreign_thread_clone_alive"]
+TOPOLOGIES = ["orig", "clone_alive", "scope_owns_clone", "helper", "lent", "foreign_thread", "foreign_thread_clone_alive",
+              "created_while_unwinding"]      # the mock is built by cleanup code (a guard's Drop) running while its thread unwinds
 
 
 def make_case(origin, terms, probe, arm, topo, variant):
@@ -84,7 +85,10 @@ def make_case(origin, terms, probe, arm, topo, variant):
     evs.append({"base": ("count", 0)})
     evs.append({"base": ("drop", 1)})
     evs.append({"base": ("verify", 0)})
-    return {"partial": False, "terms": terms, "events": evs, "_origin": origin, "_topo": topo, "_variant": variant}
+    c = {"partial": False, "terms": terms, "events": evs, "_origin": origin, "_topo": topo, "_variant": variant}
+    if topo == "created_while_unwinding":
+        c["new_unwinding"] = True
+    return c
 
 
 def gen_cases(rng, tier):
